@@ -140,9 +140,8 @@ def run(ctx: Ctx) -> None:
     rep.floor("C15.R3", n3, 4)
 
     # ---- R4 decode table ---------------------------------------------------------------------
-    parser = prog.funcs.get("dds._api._parse_stages")
-    if parser is None:
-        raise AnchorError("role stage-list-parser (dds._api._parse_stages) not found")
+    from .roles import stage_parser as _stage_parser
+    parser = _stage_parser(ctx)
     ev = Evaluator(prog)
     enum = ev.enum_class(STAGE_ENUM)
     if enum is None:
@@ -326,5 +325,5 @@ def run(ctx: Ctx) -> None:
     rep.rule("C15.R9", "the stage parser is given the value of the `dds_stages` option - a value of its declared type (mypy: no argument of another type reaches "
                        "_parse_stages, nor another kind of name any call of the API module)")
     n9 = kinds_not_confused(ctx, "C15.R9", ("dds._api", "dds"), "the requested stage list is ignored: dds.eval(f, dds_stages=['analysis']) runs user code, writes blobs and commits paths",
-                            callees=("_parse_stages", parser.name))
+                            callees=(parser.name,))
     rep.floor("C15.R9", n9, 3)
